@@ -192,6 +192,16 @@ fn custom_runtime() -> &'static Runtime {
                 hook("call");
                 Ok(args[0].clone())
             }));
+            // a function that re-enters compile + search n levels deep and yields at the innermost level
+            rt.register_function("nest", Box::new(|args: &[Rcvar], _: &mut Context<'_>| {
+                let n = args.get(0).and_then(|a| a.as_number()).unwrap_or(0.0) as i64;
+                if n <= 0 {
+                    hook("call");
+                    return Ok(Rcvar::new(Variable::String("bottom".into())));
+                }
+                let inner = custom_runtime().compile(&format!("nest(`{}`)", n - 1))?;
+                inner.search(&args[0])
+            }));
             rt.register_function("failing", Box::new(|args: &[Rcvar], ctx: &mut Context<'_>| {
                 hook("call");
                 let _ = args;
@@ -260,6 +270,16 @@ pub fn scenarios(tier: Tier) -> Vec<Scenario> {
         custom: vec![],
         inputs: vec![json!({"a": {"a": 1}})],
         threads: if tier == Tier::Thorough { vec![vec![Op::Search(0, 0)], vec![Op::Search(1, 0)], vec![Op::Search(0, 0)]] } else { vec![vec![Op::Search(0, 0)], vec![Op::Search(1, 0)]] },
+    });
+    // searches that legitimately re-enter search (through a custom function), overlapping at their deepest point:
+    // any per-process accounting of searches in flight shows up
+    v.push(Scenario {
+        max_bound: Some(1),
+        name: "re-entrant-searches-overlap",
+        exprs: vec!["nest(`40`)", "[nest(`20`), nest(`45`)]"],
+        custom: vec![0, 1],
+        inputs: vec![json!(1)],
+        threads: vec![vec![Op::Search(0, 0)], vec![Op::Search(1, 0)]],
     });
     if tier == Tier::Thorough {
         for s in v.iter_mut().filter(|s| s.max_bound.is_none()) {
@@ -532,6 +552,22 @@ pub fn intercept_scenarios() -> Vec<Scenario> {
             threads: vec![vec![Op::Search(0, 0), Op::Search(2, 1), Op::Search(1, 0)], vec![Op::Search(1, 0), Op::Search(3, 1), Op::Search(0, 0)]],
         },
     ];
+    // a process that has already compiled K distinct expressions (bounded caches fill up and get evicted / cleared
+    // around sizes like 128 and 256), then two threads compile a known and a new expression each
+    for k in [127usize, 255] {
+        let name: &'static str = Box::leak(format!("compile-under-cache-pressure-{}", k).into_boxed_str());
+        v.push(Scenario {
+            max_bound: None,
+            name,
+            exprs: vec![],
+            custom: vec![],
+            inputs: vec![people.clone()],
+            threads: vec![
+                vec![Op::CompileSearch("people[0].name", 0), Op::CompileSearch("people[1].name || 'fresh-one'", 0), Op::CompileSearch("people[0].name", 0)],
+                vec![Op::CompileSearch("people[1].name", 0), Op::CompileSearch("people[0].name || 'fresh-two'", 0), Op::CompileSearch("people[0].name", 0)],
+            ],
+        });
+    }
     // the hook-level scenarios once more, now with the crate's own synchronisation visible
     for s in scenarios(Tier::Quick) {
         v.push(s);
@@ -568,6 +604,15 @@ pub fn intercept_child(name: &str, mode: &str) -> i32 {
     let runner = shuttle::Runner::new(Rec(PbDfs::replay(choices), widths), config());
     runner.run(move || {
         // everything that touches the crate happens inside the execution (intercepted primitives need one)
+        if let Some(k) = s.name.strip_prefix("compile-under-cache-pressure-").and_then(|k| k.parse::<usize>().ok()) {
+            // the known expressions first, then distinct fillers, on the main task (no alternatives yet)
+            for e in ["people[0].name", "people[1].name"] {
+                let _ = jmespath::compile(e);
+            }
+            for i in 0..k.saturating_sub(2) {
+                let _ = jmespath::compile(&format!("filler_{}[{}]", i, i % 7));
+            }
+        }
         let sh = build_shared(s);
         let got: Vec<Vec<String>> = if sequential_mode {
             s.threads.iter().map(|ops| ops.iter().map(|op| run_op(&sh, op)).collect()).collect()
@@ -829,6 +874,55 @@ pub fn parallel_stress(threads: usize, iterations: usize) -> Option<String> {
     bad
 }
 
+/// Supporting leg (sampling): expressions compiled on one thread are handed to another thread and dropped
+/// there while the first thread compiles expressions spelling the same literals again -- ownership that
+/// crosses threads (the drop of an `Arc` is not a scheduling point for the explorer).
+pub fn handoff_stress(pairs: usize, iterations: usize) -> Option<String> {
+    let exprs = ["a == `{\"k\": [1, 2, 3]}`", "[`{\"k\": [1, 2, 3]}`, `\"shared literal text\"`]", "b || `\"shared literal text\"`", "`[1.5, \"x\"]` | [0]"];
+    let doc = json!({"a": {"k": [1, 2, 3]}, "b": null});
+    let expected: Vec<String> = exprs.iter().map(|e| format!("{}", var_to_value(&jmespath::compile(e).unwrap().search(value_to_var(&doc)).unwrap()))).collect();
+    let mut hs = Vec::new();
+    for p in 0..pairs {
+        let (tx, rx) = std::sync::mpsc::sync_channel::<(usize, Expression<'static>)>(4);
+        let want = expected.clone();
+        let d = doc.clone();
+        hs.push(std::thread::spawn(move || -> Option<String> {
+            let rc = value_to_var(&d);
+            for (k, x) in rx {
+                let got = match x.search(&rc) { Ok(v) => format!("{}", var_to_value(&v)), Err(e) => format!("err {:?}", e.reason) };
+                if got != want[k] {
+                    return Some(format!("pair {}: a handed-over expression {:?} gave {} instead of {}", p, exprs[k], got, want[k]));
+                }
+                drop(x);
+            }
+            None
+        }));
+        hs.push(std::thread::spawn(move || -> Option<String> {
+            for it in 0..iterations {
+                let k = (it + p) % exprs.len();
+                match jmespath::compile(exprs[k]) {
+                    Ok(x) => {
+                        if tx.send((k, x)).is_err() {
+                            return Some("the receiving thread stopped".into());
+                        }
+                    }
+                    Err(e) => return Some(format!("compile({:?}) failed: {:?}", exprs[k], e.reason)),
+                }
+            }
+            None
+        }));
+    }
+    let mut bad = None;
+    for h in hs {
+        match h.join() {
+            Ok(Some(b)) => bad = bad.or(Some(b)),
+            Ok(None) => {}
+            Err(p) => bad = bad.or(Some(format!("a thread panicked: {}", crate::implx::panic_msg(p)))),
+        }
+    }
+    bad
+}
+
 pub fn run(tier: Tier, obligations: u64) -> i32 {
     let mut rep = Report::new("C16", tier);
     let mut st = Stats::default();
@@ -896,6 +990,14 @@ pub fn run(tier: Tier, obligations: u64) -> i32 {
             st.violate(Violation { key: "C16/real-threads/stress".into(), check: "real-threads".into(), case: json!({"kind": "real-threads-stress", "threads": th, "iterations": it}), expected: "every thread observes its sequential results".into(), actual: b });
         }
     }
+    {
+        let (pairs, it) = tier.pick((4, 20_000), (8, 200_000));
+        let bad = handoff_stress(pairs, it);
+        st.count("real_thread_handoffs_supporting_only", (pairs * it) as u64);
+        if let Some(b) = bad {
+            st.violate(Violation { key: "C16/real-threads/handoff".into(), check: "real-threads".into(), case: json!({"kind": "real-threads-handoff", "pairs": pairs, "iterations": it}), expected: "expressions can be dropped on another thread while their literals are compiled again".into(), actual: b });
+        }
+    }
     // intercepted synchronisation (fresh process per schedule); the binary is built by scripts/check-C16.sh
     let mut intercept_table = serde_json::Map::new();
     match std::env::var("JPV_INTERCEPT_BIN") {
@@ -946,7 +1048,7 @@ pub fn run(tier: Tier, obligations: u64) -> i32 {
     rep.guard("pre-empting schedules were explored", st.nontrivial > 100);
     rep.guard("fresh-process first-use schedules were explored", fu > 5);
     rep.guard("type-level obligations discharged", obligations > 0);
-    rep.rule = "leg 1 (compile time): Send + Sync obligations on the public types under --features sync and the library under -F unsafe_code; leg 2: for each scenario (2-3 threads on shared Arc<Expression> / shared Arc inputs, chosen to collide: failing calls at different offsets, by-functions with nested calls, a shared literal, a custom runtime whose functions yield, compile inside threads, deep expressions whose evaluations overlap) every schedule with at most c pre-emptions for c = 0,1,2(,3) over the hook points {search-enter, interpret, call, validate, error, get_function, compile}, plus unbounded DFS over the coarse points {search-enter, call, error}; first use of DEFAULT_RUNTIME: one fresh process per schedule with bounded deviations; leg 2c (intercepted synchronisation): the harness built against a rewritten copy of the crate in which std::sync / std::thread / thread_local! resolve to shuttle's types, so that every lock, atomic and Once operation inside the crate is a scheduling point -- 9 scenarios (concurrent compiles of different long expressions, to_number on different long strings, sorts / by-functions on shared input, the hook-level scenarios again), every schedule with at most d deviations from staying on the running thread, one fresh process per schedule. Oracle: every thread's observations (values / full error structs) equal the sequential run; inputs unchanged. states = executions; transitions = scheduling points hit; non-trivial = executions with at least one pre-emption allowed".into();
+    rep.rule = "leg 1 (compile time): Send + Sync obligations on the public types under --features sync and the library under -F unsafe_code; leg 2: for each scenario (2-3 threads on shared Arc<Expression> / shared Arc inputs, chosen to collide: failing calls at different offsets, by-functions with nested calls, a shared literal, a custom runtime whose functions yield, compile inside threads, deep expressions whose evaluations overlap) every schedule with at most c pre-emptions for c = 0,1,2(,3) over the hook points {search-enter, interpret, call, validate, error, get_function, compile}, plus unbounded DFS over the coarse points {search-enter, call, error}; first use of DEFAULT_RUNTIME: one fresh process per schedule with bounded deviations; leg 2c (intercepted synchronisation): the harness built against a rewritten copy of the crate in which std::sync / std::thread / thread_local! resolve to shuttle's types, so that every lock, atomic and Once operation inside the crate is a scheduling point -- 12 scenarios (concurrent compiles of different long expressions, to_number on different long strings, sorts / by-functions on shared input, compiles after 127 / 255 distinct expressions were compiled (bounded caches), the hook-level scenarios again incl. searches that re-enter search 40 levels deep), every schedule with at most d deviations from staying on the running thread, one fresh process per schedule. Oracle: every thread's observations (values / full error structs) equal the sequential run; inputs unchanged. states = executions; transitions = scheduling points hit; non-trivial = executions with at least one pre-emption allowed".into();
     rep.bounds = json!({"preemption_bounds": bounds, "scenarios": table, "intercepted": intercept_table});
     rep.assumptions.extend(vec![
         "leg 2: steps between two hook points are atomic to the explorer; leg 2c: steps between two synchronisation operations of the crate are; Arc counts are std's and memory orderings weaker than sequential consistency are not modelled by shuttle".into(),
@@ -988,6 +1090,13 @@ pub fn replay(case: &Value) -> Option<(String, bool)> {
             let want = run("seq");
             let got = run(&if choices.is_empty() { "-".to_string() } else { choices.join(",") });
             Some((format!("sequential: {} ; under the recorded schedule: {}", want, got), want != got))
+        }
+        "real-threads-handoff" => {
+            let r = handoff_stress(case["pairs"].as_u64()? as usize, case["iterations"].as_u64()? as usize);
+            Some(match r {
+                Some(b) => (b, true),
+                None => ("no divergence in this (sampled) run".into(), false),
+            })
         }
         "real-threads-stress" => {
             let r = parallel_stress(case["threads"].as_u64()? as usize, case["iterations"].as_u64()? as usize);
